@@ -28,8 +28,51 @@
     safety half only, and the check reports the dead-lock as a finding.
 -/
 import BMV.Proofs.Frag
-namespace BMV.Props.C06
+
+/-! concrete graphs used by the non-vacuity examples and by the dead-lock counterexample -/
+namespace BMV.Frag.Ex
 open BMV.Frag
+
+def fInc : Fragment := { name := "inc", resin := [0], resout := [0], body := [.inc 0] }
+def fDbl : Fragment := { name := "dbl", resin := [0], resout := [0], body := [.add 0 0] }
+
+/-- e0 → A(inc) → B(dbl) → e0 and A → C(inc) → e1: a shared producer -/
+def gEx : Graph :=
+  { w := 16,
+    insts := [⟨"A", fInc⟩, ⟨"B", fDbl⟩, ⟨"C", fInc⟩],
+    links := [⟨"l0", .ext 0, .inp 0 0⟩, ⟨"l1", .out 0 0, .inp 1 0⟩, ⟨"l2", .out 0 0, .inp 2 0⟩,
+              ⟨"l3", .out 1 0, .ext 0⟩, ⟨"l4", .out 2 0, .ext 1⟩] }
+
+def ptOne : Part := [⟨"cp0", [0, 1, 2]⟩]
+def ptTwo : Part := [⟨"cp0", [0, 2]⟩, ⟨"cp1", [1]⟩]
+
+/-- crossing exchange: A1→B2, A2→B1 with A1, A2 collapsed on one CP and B1, B2 on the other: both
+    lists are topologically ordered, the graph is a DAG -/
+def gX : Graph :=
+  { w := 16,
+    insts := [⟨"A1", fInc⟩, ⟨"A2", fDbl⟩, ⟨"B1", fInc⟩, ⟨"B2", fDbl⟩],
+    links := [⟨"l0", .ext 0, .inp 0 0⟩, ⟨"l1", .ext 1, .inp 1 0⟩, ⟨"l2", .out 0 0, .inp 3 0⟩,
+              ⟨"l3", .out 1 0, .inp 2 0⟩, ⟨"l4", .out 2 0, .ext 0⟩, ⟨"l5", .out 3 0, .ext 1⟩] }
+def ptX : Part := [⟨"cp0", [0, 1]⟩, ⟨"cp1", [2, 3]⟩]
+def ptSep : Part := [⟨"c0", [0]⟩, ⟨"c1", [1]⟩, ⟨"c2", [2]⟩, ⟨"c3", [3]⟩]
+
+/-- a round of `gEx` on two CPs for input 3 -/
+def σEx : End → Nat
+  | .bmIn 0 => 3
+  | .bmIn _ => 0
+  | .cpIn 0 _ => 3
+  | .cpOut 0 0 => 4
+  | .cpOut 0 1 => 5
+  | .cpIn 1 _ => 4
+  | .cpOut 1 _ => 8
+  | .bmOut 0 => 8
+  | .bmOut _ => 5
+  | _ => 0
+
+end BMV.Frag.Ex
+
+namespace BMV.Props.C06
+open BMV.Frag BMV.Frag.Ex
 
 /-- **temp_fresh**: the registers `NextResource` picks for the temporaries t0, t1, … of a composed
     section are pairwise distinct and occur in no line of the section before the replacement — in
@@ -118,19 +161,6 @@ def compose_live_full : Prop :=
 
 /-! ### non-vacuity -/
 
-def fInc : Fragment := { name := "inc", resin := [0], resout := [0], body := [.inc 0] }
-def fDbl : Fragment := { name := "dbl", resin := [0], resout := [0], body := [.add 0 0] }
-
-/-- e0 → A(inc) → B(dbl) → e0 and A → C(inc) → e1: a shared producer -/
-def gEx : Graph :=
-  { w := 16,
-    insts := [⟨"A", fInc⟩, ⟨"B", fDbl⟩, ⟨"C", fInc⟩],
-    links := [⟨"l0", .ext 0, .inp 0 0⟩, ⟨"l1", .out 0 0, .inp 1 0⟩, ⟨"l2", .out 0 0, .inp 2 0⟩,
-              ⟨"l3", .out 1 0, .ext 0⟩, ⟨"l4", .out 2 0, .ext 1⟩] }
-
-def ptOne : Part := [⟨"cp0", [0, 1, 2]⟩]
-def ptTwo : Part := [⟨"cp0", [0, 2]⟩, ⟨"cp1", [1]⟩]
-
 example : gEx.wf = true := by decide
 example : Part.ok gEx ptOne = true := by decide
 example : Part.ok gEx ptTwo = true := by decide
@@ -144,16 +174,6 @@ example : tempRegs (secSym gEx [0, 1, 2]) = [1] := by decide
 example : bonds gEx ptTwo =
     [(.bmIn 0, .cpIn 0 0), (.cpOut 0 0, .cpIn 1 0), (.cpOut 1 0, .bmOut 0), (.cpOut 0 1, .bmOut 1)] := by
   decide
-
-/-- crossing exchange: A1→B2, A2→B1 with A1, A2 collapsed on one CP and B1, B2 on the other: both
-    lists are topologically ordered, the graph is a DAG -/
-def gX : Graph :=
-  { w := 16,
-    insts := [⟨"A1", fInc⟩, ⟨"A2", fDbl⟩, ⟨"B1", fInc⟩, ⟨"B2", fDbl⟩],
-    links := [⟨"l0", .ext 0, .inp 0 0⟩, ⟨"l1", .ext 1, .inp 1 0⟩, ⟨"l2", .out 0 0, .inp 3 0⟩,
-              ⟨"l3", .out 1 0, .inp 2 0⟩, ⟨"l4", .out 2 0, .ext 0⟩, ⟨"l5", .out 3 0, .ext 1⟩] }
-def ptX : Part := [⟨"cp0", [0, 1]⟩, ⟨"cp1", [2, 3]⟩]
-def ptSep : Part := [⟨"c0", [0]⟩, ⟨"c1", [1]⟩, ⟨"c2", [2]⟩, ⟨"c3", [3]⟩]
 
 /-- on separate processors the network delivers eval(G) … -/
 theorem crossing_separate_ok : (compose gX ptSep).run [[3, 4]] = ([[9], [8]], "ok") := by decide
@@ -172,18 +192,6 @@ theorem compose_live_counterexample : ¬ compose_live_full := by
 
 /-- a consistent behaviour exists (the hypothesis of `compose_correct` is satisfiable): `gEx` on
     two CPs, input 3 -/
-def σEx : End → Nat
-  | .bmIn 0 => 3
-  | .bmIn _ => 0
-  | .cpIn 0 _ => 3
-  | .cpOut 0 0 => 4
-  | .cpOut 0 1 => 5
-  | .cpIn 1 _ => 4
-  | .cpOut 1 _ => 8
-  | .bmOut 0 => 8
-  | .bmOut _ => 5
-  | _ => 0
-
 theorem consistent_example : Consistent gEx ptTwo [3] σEx := by
   refine ⟨?_, ?_, ?_⟩
   · decide
